@@ -252,6 +252,18 @@ def gen_world(rng, profile):
         ops.append({"op": "randomize", "target": [], "inline": None, "seed": r.randrange(1 << 30), "inst": 0})
         ops.append({"op": "relist", "path": fl, "inst": 0})
         ops.append({"op": "randomize", "target": fl[:-1], "inline": None, "seed": r.randrange(1 << 30), "inst": 0})
+    if r.random() < 0.2:
+        # a call on an object in which nothing is random and no block is on: there is nothing to solve, the callbacks of
+        # the object still run, every value stays
+        leafs_p = [(list(p_), cn) for p_, cn in opaths if cn in ("L", "D") and not any(c.endswith("]") for c in p_)]
+        if leafs_p:
+            lp_, lc = r.choice(leafs_p)
+            for p_, dcl in sp:
+                if list(p_[:-1]) == lp_ and len(p_) == len(lp_) + 1:
+                    ops.append({"op": "rand_mode", "path": list(p_), "val": False, "inst": 0})
+            for b in W.blocks_of(scn, lc):
+                ops.append({"op": "constraint_mode", "obj": lp_, "block": b["name"], "val": False, "inst": 0})
+            ops.append({"op": "randomize", "target": lp_, "inline": None, "seed": r.randrange(1 << 30), "inst": 0})
     for i in range(ninst):
         ops.append({"op": "randomize", "target": [], "inline": None, "seed": r.randrange(1 << 30), "inst": i})
     scn["ops"] = ops
